@@ -3,6 +3,7 @@
 package main
 
 import (
+	"math"
 	"encoding/json"
 	"fmt"
 	"time"
@@ -31,15 +32,19 @@ func baseConfig(r *rng) *system.Config {
 func smallStep(w *world) int64 { return int64(pick(w.r, []int{0, 0, 1, 1, 1, 2, 3})) }
 
 func key(r *rng) *idempotency.Key {
-	// "k1" and "K1" are different keys that are equal under case folding
-	switch r.intn(4) {
-	case 0:
+	// "k1" and "K1" are different keys that are equal under case folding; "" is a key (present and empty), not the
+	// absence of one
+	switch r.intn(9) {
+	case 0, 1:
 		return nil
-	case 1:
+	case 2, 3:
 		k := idempotency.Key("k1")
 		return &k
-	case 2:
+	case 4, 5:
 		k := idempotency.Key("K1")
+		return &k
+	case 6:
+		k := idempotency.Key("")
 		return &k
 	default:
 		k := idempotency.Key("k2")
@@ -105,6 +110,24 @@ func init() {
 			default:
 				return &t_api.Request{Kind: t_api.HeartbeatLocks, HeartbeatLocks: &t_api.HeartbeatLocksRequest{ProcessId: pr}}
 			}
+		},
+	}
+
+	// ---- lockwrap (C09, finding D13): acquires whose ttl makes time + ttl leave the 64-bit range, releases and the sweep.
+	// No heartbeats: the heartbeat statement adds in SQL, where an overflowing sum is not an integer any more - what
+	// happens then differs between Go, SQLite and Postgres and is outside the model.
+	families["lockwrap"] = &family{
+		name: "lockwrap", bgs: []string{"TimeoutLocks"}, requests: 8, maxSteps: 30, fault: 0.05, timeStep: smallStep, fifo: true,
+		config: baseConfig,
+		gen: func(w *world) *t_api.Request {
+			r := w.r
+			res := pick(r, []string{"r1", "r2"})
+			ex := pick(r, []string{"e1", "e2"})
+			if r.chance(0.7) {
+				ttl := pick(r, []int64{math.MaxInt64, math.MaxInt64 - 5, 3, 1})
+				return &t_api.Request{Kind: t_api.AcquireLock, AcquireLock: &t_api.AcquireLockRequest{ResourceId: res, ExecutionId: ex, ProcessId: "p1", Ttl: ttl}}
+			}
+			return &t_api.Request{Kind: t_api.ReleaseLock, ReleaseLock: &t_api.ReleaseLockRequest{ResourceId: res, ExecutionId: ex}}
 		},
 	}
 
